@@ -164,6 +164,15 @@ typedef Geometry::ConformalMesh<Shape::Hypercube<2>, 2, Q> MeshH2;
 typedef Geometry::ConformalMesh<Shape::Hypercube<3>, 3, Q> MeshH3;
 typedef Geometry::ConformalMesh<Shape::Simplex<2>, 2, Q> MeshS2;
 typedef Geometry::ConformalMesh<Shape::Simplex<3>, 3, Q> MeshS3;
+// mesh types embedded in a higher-dimensional world (surface meshes, curves)
+typedef Geometry::ConformalMesh<Shape::Simplex<2>, 3, Q> MeshS2W3;
+typedef Geometry::ConformalMesh<Shape::Hypercube<2>, 3, Q> MeshH2W3;
+typedef Geometry::ConformalMesh<Shape::Hypercube<1>, 2, Q> MeshH1W2;
+typedef Geometry::ConformalMesh<Shape::Hypercube<1>, 3, Q> MeshH1W3;
+void run_mesh_s2w3(Geometry::MeshFileReader&, std::ostream&);
+void run_mesh_h2w3(Geometry::MeshFileReader&, std::ostream&);
+void run_mesh_h1w2(Geometry::MeshFileReader&, std::ostream&);
+void run_mesh_h1w3(Geometry::MeshFileReader&, std::ostream&);
 typedef Geometry::ConformalMesh<Shape::Hypercube<2>, 2, double> MeshH2D;   // "printed precision" clause at double
 void run_mesh_h2d(Geometry::MeshFileReader&, std::ostream&);
 typedef Geometry::ConformalMesh<Shape::Hypercube<3>, 3, double> MeshH3D;   // 3D charts (Extrude needs sin/cos) at double
